@@ -199,3 +199,21 @@ Theorem C06_Render2DemoSound_demo_render2_equiv_brute :
          (Render2Demo.brute w h t).
 Proof. exact (@Render2DemoSound.demo_render2_equiv_brute). Qed.
 Print Assumptions C06_Render2DemoSound_demo_render2_equiv_brute.
+
+(* ---- the pixel encoding: a value is never read back as a fill (constants and the NaN canonicalisation are
+   regenerated from fidget-raster/src/pixel.rs on every run, PixelGenCheck.v) ---- *)
+From Coq Require Import NArith.
+From FV Require Import PixelCodec PixelGenCheck.
+From FVGen Require Import RasterGen.
+Theorem C06_value_pixel_is_never_a_fill :
+  forall b : N, unpack (of_value gen_value_canonicalises_nan b) = Value (of_value gen_value_canonicalises_nan b).
+Proof. exact source_value_is_never_a_fill. Qed.
+Print Assumptions C06_value_pixel_is_never_a_fill.
+Theorem C06_fill_pixel_round_trip :
+  forall (depth : N) (inside : bool), (depth < 256)%N -> unpack (of_fill depth inside) = Fill depth inside.
+Proof. exact fill_round_trip. Qed.
+Print Assumptions C06_fill_pixel_round_trip.
+Theorem C06_value_and_fill_encodings_disjoint :
+  forall (b depth : N) (inside : bool), (depth < 256)%N -> of_value true b <> of_fill depth inside.
+Proof. exact value_and_fill_disjoint. Qed.
+Print Assumptions C06_value_and_fill_encodings_disjoint.
